@@ -39,8 +39,8 @@ PROPS = {
                             'uniform cubic with 9-17 points, against exact integration of the interpolating spline and f_eq at the global '
                             'radius (tolerance 2e-13 relative)')],
         assumptions=['complex128 density storage is treated like real storage in the kernel proofs (the kernels only add and multiply); '
-                     'the class-level wiring (global radius row of the equilibrium table, complex storage, grid reuse) is covered by the '
-                     'bounded stand-in only'],
+                     'complex storage and grid reuse after an FFT are covered by the bounded stand-in only',
+                     'f_eq is an uninterpreted pure function in the table contracts (its formula is not part of C16)'],
     ),
     'C07': dict(
         level='proof',
